@@ -134,6 +134,9 @@ def generate(rng, prop, tier, mode=None):
             sd["noise"] = {k_: fx(xf(v) * scale) for k_, v in sd["noise"].items()}
         d["tags"] = sorted(set(d.get("tags", []) + [f"scale_{scale:g}"]))
     cfg["scale"] = scale
+    # other filters are built in the same process, before and after the one under test: from the SAME ui.Model object with
+    # another calibration / noise, and from another definition that uses the same sensor keys
+    cfg["sibling_builds"] = rng.random() < 0.25
     ref = cached_ref(d)
     x, P, tags = draw_init(rng, d, p)
     P = P * scale
@@ -216,6 +219,8 @@ def _gen_ops(rng, mode, ops, n_steps, ref, x, P, k, p, tags, sensors, max_dt, in
             else:
                 r = rng.random()
                 dt = max_dt if r < 0.15 else -max_dt if r < 0.25 else rng.choice([-1, 1, 1]) * rng.uniform(1e-4, max_dt)
+                if rng.random() < 0.1:
+                    dt = rng.choice([-1, 1, 1]) * rng.uniform(1e-5, 1e-3)  # very short (but real) steps
                 tiny = rng.random() < 0.05
                 if tiny:
                     dt = rng.choice([0.0, 1e-10, -1e-10, 5e-10, -5e-10, 1e-12])
@@ -352,8 +357,36 @@ class Harness:
         b = models.build(d)
         config = python.Config(common_subexpression_elimination=cfg["cse"], innovation_filtering=self.k, max_dt_sec=xf(cfg["max_dt_sec"]))
         with contextlib.redirect_stdout(io.StringIO()):
+            if cfg.get("sibling_builds"):
+                self._sibling(python, b, d, "before")
             self.ekf = python.compile_ekf(b["model"], b["process_noise"], b["sensor_models"], b["sensor_noises"], b["calibration_map"], config=config)
+            if cfg.get("sibling_builds"):
+                self._sibling(python, b, d, "after")
+                res.stats["fault:sibling_builds"] += 1
         self.step = 0
+
+    def _sibling(self, python, b, d, when):
+        """build (and keep alive) other filters: same ui.Model object with shifted calibration and noise; and a different
+        definition that reuses this one's sensor keys. Failures of these builds are not this run's subject."""
+        self.siblings = getattr(self, "siblings", [])
+        cfgs = python.Config(common_subexpression_elimination=False, innovation_filtering=7.0 if when == "before" else None)
+        try:
+            cm = {k_: v + (0.37 if when == "before" else -0.61) for k_, v in b["calibration_map"].items()}
+            pn = {k_: v * 3.0 for k_, v in b["process_noise"].items()}
+            sn = {k_: {r: v * 0.5 for r, v in m.items()} for k_, m in b["sensor_noises"].items()}
+            self.siblings.append(python.compile_ekf(b["model"], pn, b["sensor_models"], sn, cm, config=cfgs))
+        except Exception:  # noqa: BLE001
+            pass
+        try:
+            import random as _r
+
+            dd = models.draw(_r.Random(len(d["state"]) * 7 + (1 if when == "before" else 2)), max_states=2, max_controls=1, max_cal=1, max_sensors=len(d["sensors"]) or 1, min_sensors=len(d["sensors"]) or 1, symbol_keys=False)
+            keys = list(d["sensors"])
+            dd["sensors"] = {(keys[j] if j < len(keys) else k_): v for j, (k_, v) in enumerate(dd["sensors"].items())}
+            bb = models.build(dd)
+            self.siblings.append(python.compile_ekf(bb["model"], bb["process_noise"], bb["sensor_models"], bb["sensor_noises"], bb["calibration_map"], config=cfgs))
+        except Exception:  # noqa: BLE001
+            pass
 
     # ---- by-name conversion (layout = sorted names, the library's documented order)
     def state_obj(self, x):
